@@ -550,10 +550,11 @@ Section RoundTripTree.
       /\ ts = ed_timestamp len_of dig_of e sn sts
       /\ srv = tree_files len_of dig_of (r_cs r) e (top_file_doc e dkeys ch st) sn ts ch.
   Proof.
-    intro Hs. unfold ed_sign_tree in Hs.
+    intro Hs. unfold ed_sign_tree, ed_sign_tree_gen in Hs.
     destruct (signed_role r 2 keys) as [st|]; [|discriminate].
     destruct (signed_role r 1 keys) as [ss|]; [|discriminate].
     destruct (signed_role r 3 keys) as [sts|]; [|discriminate].
+    destruct (negb true || nodup_bytes (map en_name (all_roles ch))); cbn [andb] in Hs; [|discriminate].
     destruct (forallb (role_checked (top_node e dkeys ch)) (all_roles ch)) eqn:Hchk; [|discriminate].
     destruct (validate (top_loaded e dkeys ch st)) eqn:Hval; [|discriminate].
     injection Hs as E1 E2 E3 E4. exists st, ss, sts. subst. repeat split; auto.
@@ -809,7 +810,7 @@ Definition dup_B1 : enode := ENode (x_hdr [66] [7] 1 [98; 47; 42]) 1 400 [] [] [
 
 Lemma distinct_names_needed : forall cs,
   exists tg sn ts srv w rp,
-    ed_sign_tree x_len x_len (x_root cs) x_edit [4; 7] [dup_A; dup_B1] [1; 2; 3; 20] = Some (tg, sn, ts, srv)
+    ed_sign_tree_gen x_len x_len false (x_root cs) x_edit [4; 7] [dup_A; dup_B1] [1; 2; 3; 20] = Some (tg, sn, ts, srv)
     /\ root_verify (x_root cs) 0 (r_sigs (x_root cs)) = true
     /\ NoDup [1; 2; 3; 20] /\ (forall k, In k [1; 2; 3; 20] -> memN k (r_keys (x_root cs)) = true)
     /\ Forall (fun n => Forall (fun c => c < 256) (en_name n)) (all_roles [dup_A; dup_B1])
@@ -826,7 +827,7 @@ Lemma distinct_names_needed : forall cs,
     /\ map (fun ni => tn_raw (fst ni)) (targets_iter (rp_targets rp)) = [[116]].
 Proof.
   intro cs.
-  destruct (ed_sign_tree x_len x_len (x_root cs) x_edit [4; 7] [dup_A; dup_B1] [1; 2; 3; 20])
+  destruct (ed_sign_tree_gen x_len x_len false (x_root cs) x_edit [4; 7] [dup_A; dup_B1] [1; 2; 3; 20])
     as [[[[tg sn] ts] srv]|] eqn:E; [|destruct cs; vm_compute in E; discriminate].
   destruct (run_cycle fixed (x_cyc cs srv) store0) as [[rp|c a] w] eqn:R;
     [|destruct cs; vm_compute in E; injection E as <- <- <- <-; vm_compute in R; discriminate].
@@ -875,3 +876,25 @@ Proof.
   split; [left; reflexivity|].
   vm_compute in E; injection E as <- <- <- <-. vm_compute in R. injection R as <- <-. reflexivity.
 Qed.
+
+(* after the repair of F19 a successful sign implies that the delegated roles have pairwise distinct names,
+   and the tree of the witness above is refused *)
+Lemma nodup_bytes_NoDup l : nodup_bytes l = true -> NoDup l.
+Proof.
+  induction l as [|x l IH]; cbn [nodup_bytes]; intro H; [constructor|].
+  apply andb_true_iff in H as [H1 H2]. constructor; [|apply IH, H2].
+  intro Hin. apply LivenessP.mem_bytes_In in Hin. rewrite Hin in H1. discriminate.
+Qed.
+
+Lemma ed_sign_tree_names len_of dig_of r e dkeys ch keys res :
+  ed_sign_tree len_of dig_of r e dkeys ch keys = Some res -> NoDup (map en_name (all_roles ch)).
+Proof.
+  unfold ed_sign_tree, ed_sign_tree_gen. intro H.
+  destruct (signed_role r 2 keys); [|discriminate]. destruct (signed_role r 1 keys); [|discriminate].
+  destruct (signed_role r 3 keys); [|discriminate]. cbn [negb orb] in H.
+  destruct (nodup_bytes (map en_name (all_roles ch))) eqn:E; [|discriminate]. apply nodup_bytes_NoDup, E.
+Qed.
+
+Lemma duplicate_names_refused : forall cs,
+  ed_sign_tree x_len x_len (x_root cs) x_edit [4; 7] [dup_A; dup_B1] [1; 2; 3; 20] = None.
+Proof. intros [|]; vm_compute; reflexivity. Qed.
